@@ -28,7 +28,7 @@ func (s pstep) String() string {
 	switch s.op {
 	case "set":
 		return fmt.Sprintf("set(%s=%s)", s.keys[0], s.val)
-	case "flush", "flushwait":
+	case "flush", "flushwait", "mayflush":
 		return s.op
 	}
 	return fmt.Sprintf("%s(%s)", s.op, strings.Join(s.keys, ","))
@@ -36,7 +36,7 @@ func (s pstep) String() string {
 
 // TestPipelinedTxn runs pipelined transactions end to end on unistore.
 func TestPipelinedTxn(t *testing.T) {
-	rec := ev.For(t, "C16", "pipelined transactions on unistore: initial committed data on some of 3-8 keys, 0-4 region splits (on the smallest / largest written key, or off keys), flush thresholds of 1-3 keys (failpoints), a program of 3-14 steps set / delete / get / batch-get / forced flush / flush-wait, ended by Commit or Rollback; every read is compared with a model (latest own write, else the initial data); after the end the store is polled (no lock expires) until the asynchronous range resolution is over; oracle: after Commit every written key has its last value (or a delete record) with one common commit ts and no lock of the transaction remains on any key; after Rollback no record and no lock of the transaction remains; the Flush requests carry strictly increasing generations and every buffered mutation is sent by exactly one generation; non-trivial = at least two flush generations and a read that falls through to flushed data, or a written key that is a region start; distinct = case text")
+	rec := ev.For(t, "C16", "pipelined transactions on unistore: initial committed data on some of 3-8 keys, 0-4 region splits (on the smallest / largest written key, or off keys), flush thresholds of 1-3 keys (failpoints), a program of 4-20 steps set / delete / get / batch-get / forced flush / threshold-driven flush / flush-wait, ended by Commit or Rollback; every read is compared with a model (latest own write, else the initial data); after the end the store is polled (no lock expires) until the asynchronous range resolution is over; oracle: after Commit every written key has its last value (or a delete record) with one common commit ts and no lock of the transaction remains on any key; after Rollback no record and no lock of the transaction remains; the Flush requests carry strictly increasing generations and every buffered mutation is sent by exactly one generation; non-trivial = at least two flush generations and a read that falls through to flushed data, or a written key that is a region start; distinct = case text")
 	sim.EnableFailpoints()
 	pool := []string{"a", "b", "c", "d", "e", "f", "g", "h"}
 	rapid.Check(t, func(t *rapid.T) {
@@ -60,8 +60,8 @@ func TestPipelinedTxn(t *testing.T) {
 		}
 		minKeys := rapid.IntRange(1, 3).Draw(t, "minflushkeys")
 		var steps []pstep
-		for i := rapid.IntRange(3, 14).Draw(t, "nsteps"); i > 0; i-- {
-			s := pstep{op: rapid.SampledFrom([]string{"set", "set", "set", "set", "delete", "get", "get", "batchget", "flush", "flushwait"}).Draw(t, "op")}
+		for i := rapid.IntRange(4, 20).Draw(t, "nsteps"); i > 0; i-- {
+			s := pstep{op: rapid.SampledFrom([]string{"set", "set", "set", "set", "delete", "get", "get", "get", "batchget", "flush", "flush", "mayflush", "mayflush", "flushwait"}).Draw(t, "op")}
 			switch s.op {
 			case "set":
 				s.keys, s.val = []string{key("k")}, fmt.Sprintf("v%d", i)
@@ -191,6 +191,10 @@ func TestPipelinedTxn(t *testing.T) {
 				}
 			case "flush":
 				if _, err := txn.GetMemBuffer().Flush(true); err != nil {
+					failed = err.Error()
+				}
+			case "mayflush": // threshold-driven
+				if _, err := txn.GetMemBuffer().Flush(false); err != nil {
 					failed = err.Error()
 				}
 			case "flushwait":
